@@ -7,11 +7,11 @@ from . import common, corpus, gen, harness, outcheck
 from . import ilfront as IL
 
 
-def generated_items(seed, tier, bias):
-    """bias: 'sorts' | 'own' | 'wf' - which constructs to stress"""
+def generated_items(seed, tier, bias, scale=1.0):
+    """bias: 'sorts' | 'own' | 'wf' | 'layouts' - which constructs to stress"""
     rng = random.Random(seed)
     items = []
-    n = {"quick": 260, "thorough": 3000}[tier]
+    n = int({"quick": 260, "thorough": 3000}[tier] * scale)
     avoid = ("const_cond",)
     g = gen.G(rng, avoid=avoid)
     for i in range(n):
@@ -32,6 +32,11 @@ def generated_items(seed, tier, bias):
         it = dict(it)
         it["name"] = "call:" + it["name"]
         items.append(it)
+    if bias in ("own", "wf"):
+        # constant folding that discards operands (C11/C12 quantifier)
+        for it in gen.fold_programs(random.Random(seed), 12):
+            if it["name"].startswith(("dead;", "cond;", "fold;", "foldc;")):
+                items.append(dict(name="fold:" + it["name"], text=it["text"]))
     if bias == "own":
         # heavy operand re-use
         for i in range(60 if tier == "quick" else 600):
@@ -57,7 +62,7 @@ class Outputs:
         self.compiled = 0
 
 
-def collect(run, S, tier, bias, layouts=("rs",), corpus_n=160):
+def collect(run, S, tier, bias, layouts=("rs",), corpus_n=160, gen_scale=1.0):
     out = Outputs()
     beh = S.behaviors
     names = corpus.stratified_sample(beh, corpus_n, run.seed) if tier == "quick" else sorted(beh)
@@ -80,7 +85,7 @@ def collect(run, S, tier, bias, layouts=("rs",), corpus_n=160):
                 out.items.append(dict(name=f"{nm}#{i}@{layout}", kind="corpus", src=b, rzil=z, layout=layout, vkey=nm))
     for n, d in S.base_defs.items():
         out.items.append(dict(name=f"subdef:{n}", kind="subdef", src="", rzil=d, vkey="subdef:" + n))
-    gi = generated_items(run.seed, tier, bias)
+    gi = generated_items(run.seed, tier, bias, gen_scale)
     for layout in layouts:
         cases = [dict(text=it["text"], layout=layout, subs=it.get("subs", [])) for it in gi]
         res = S.compile_stmts(cases)
